@@ -28,7 +28,7 @@ package promise
 //@   immutable done
 //@   published result, err by done token pwin
 //
-//@ ginv Z0: forall p: *Promise {isprom(p)} :: isprom(p) ==> p != nil && allocated(p) && p.done != nil && pof(p.done) == p
+//@ ginv Z0: forall p: *Promise {isprom(p)} :: isprom(p) ==> p != nil && allocated(p) && p.done != nil && pof(p.done) == p && (madein(p.done, "NewPromise") || madein(p.done, "NewPromiseWithResult"))
 //@ ginv Z1: forall p: *Promise {isprom(p)} :: isprom(p) && closed(p.done) ==> abool(p.isDone) && pwin(p) == nil && p.result != nil
 //@ ginv Z3: forall p: *Promise {pwin(p)} :: pwin(p) != nil ==> isprom(p) && abool(p.isDone) && !closed(p.done)
 //@ gtrans T1: forall p: *Promise {isprom(p)} :: old(isprom(p)) && old(abool(p.isDone)) ==> abool(p.isDone)
@@ -92,3 +92,101 @@ package promise
 //@   opt frame = skip
 //@   assert select 1: selects(p.done) && selects(done(ctx)) && selects(cancelCh)
 //@   ensures either: (result1 == context.Canceled && (cancelled(ctx) || closed(cancelCh))) || (closed(p.done) && result0 == cellany(p.result) && result1 == p.err)
+//
+// PromiseContainer is a monitor: bcast.mtx guards promise; every change of promise broadcasts in the same
+// critical section (TP). An awaiter samples the current promise and the wait channel in one critical
+// section, so by the Broadcast invariants that channel is open only while the sampled promise is still
+// the current one. curat(q): time of the critical section in which this invocation last read q as the
+// current promise (thread-local ghost). The PromiseLike the container holds is used through the interface
+// contract (GoVC model of PromiseLike.Await*, listed under assumptions): it blocks on its result, its ctx
+// and its extra channel only, and completes by result with (resval(q), reserr(q)) or else with
+// context.Canceled.
+//   invoke 1   what the blocking call listens to: the replacement channel of the sampling critical
+//              section, ctx.Done() and the caller's own channel - "returns as soon as ... fires"
+//   backedge 1 the loop goes round only after the replacement channel has fired - "blocks without
+//              consuming CPU", also for a result whose error is context.Canceled
+//   either     a return is caused by ctx, by the caller's channel, or is the result of the promise that
+//              was current at the latest sampling
+//
+//@ ghostmap curat: ref -> int local
+//
+//@ object PromiseContainer
+//@   props C11 C13
+//@   lock bcast.mtx
+//@   guarded promise
+//@   trans TP: this.promise != old(this.promise) ==> (old(this.bcast.ch) != nil ==> closed(old(this.bcast.ch)))
+//
+//@ func NewPromiseContainer
+//@   props C11
+//@   opt frame = skip
+//@   opt constructor = PromiseContainer
+//@   ensures result != nil && result.promise == nil
+//
+//@ func (*PromiseContainer).GetPromise
+//@   props C11
+//@   opt frame = skip
+//@   requires c != nil
+//@   ensures sampled: waitCh != nil && issuedBy(waitCh) == c.bcast && gettime(waitCh) == lastcs() && curat(prom) == lastcs()
+//
+//@ closure (*PromiseContainer).GetPromise$1
+//@   ghost exit: curat(prom) := now()
+//@   assert exit: prom == c.promise && waitCh != nil && waitCh == c.bcast.ch
+//
+//@ func (*PromiseContainer).SetPromise
+//@   props C11
+//@   opt frame = skip
+//@   requires c != nil
+//
+//@ closure (*PromiseContainer).SetPromise$1
+//@   assert exit: c.promise == p
+//
+//@ func (*PromiseContainer).SetResult
+//@   props C11
+//@   opt frame = skip
+//@   requires p != nil
+//@   ensures result
+//
+//@ closure (*PromiseContainer).SetResult$1
+//@   assert exit: p.promise == prom && isprom(prom) && closed(prom.done) && cellany(prom.result) == val && prom.err == err
+//
+//@ func (*PromiseContainer).Await
+//@   props C11
+//@   opt frame = skip
+//@   requires p != nil && ctx != nil
+//@   assert select 1: selects(waitCh) && selects(done(ctx)) && waitCh != nil && issuedBy(waitCh) == p.bcast && gettime(waitCh) == lastcs()
+//@   assert invoke 1: selects(waitCh) && selects(done(ctx)) && waitCh != nil && issuedBy(waitCh) == p.bcast && gettime(waitCh) == lastcs() && curat(prom) == lastcs()
+//@   assert backedge 1: closed(waitCh)
+//@   ensures either: (result1 == context.Canceled && cancelled(ctx)) || (exists q: ref :: q != nil && curat(q) == lastcs() && resolved(q) && result0 == resval(q) && result1 == reserr(q))
+//
+//@ closure (*PromiseContainer).Await$1
+//@   ghost exit: curat(prom) := now()
+//@   assert exit: prom == p.promise && waitCh != nil && waitCh == p.bcast.ch
+//
+//@ func (*PromiseContainer).AwaitWithErrCh
+//@   props C11
+//@   opt frame = skip
+//@   requires p != nil && ctx != nil
+//@   assert select 1: selects(waitCh) && selects(done(ctx)) && selects(errCh) && waitCh != nil && issuedBy(waitCh) == p.bcast && gettime(waitCh) == lastcs()
+//@   assert invoke 1: selects(waitCh) && selects(done(ctx)) && waitCh != nil && issuedBy(waitCh) == p.bcast && gettime(waitCh) == lastcs() && curat(prom) == lastcs()
+//@   assert invoke 1: errch: errCh != nil ==> selects(errCh)
+//@   assert backedge 1: closed(waitCh)
+//@   loop 1 invariant counts: recvs(errCh) >= old(recvs(errCh))
+//@   ensures either: (result1 == context.Canceled && cancelled(ctx)) || recvs(errCh) > old(recvs(errCh)) || (exists q: ref :: q != nil && curat(q) == lastcs() && resolved(q) && result0 == resval(q) && result1 == reserr(q))
+//
+//@ closure (*PromiseContainer).AwaitWithErrCh$1
+//@   ghost exit: curat(prom) := now()
+//@   assert exit: prom == p.promise && waitCh != nil && waitCh == p.bcast.ch
+//
+//@ func (*PromiseContainer).AwaitWithCancelCh
+//@   props C11
+//@   opt frame = skip
+//@   requires p != nil && ctx != nil
+//@   assert select 1: selects(waitCh) && selects(done(ctx)) && selects(cancelCh) && waitCh != nil && issuedBy(waitCh) == p.bcast && gettime(waitCh) == lastcs()
+//@   assert invoke 1: selects(waitCh) && selects(done(ctx)) && waitCh != nil && issuedBy(waitCh) == p.bcast && gettime(waitCh) == lastcs() && curat(prom) == lastcs()
+//@   assert invoke 1: cancelch: cancelCh != nil ==> selects(cancelCh)
+//@   assert backedge 1: closed(waitCh)
+//@   ensures either: (result1 == context.Canceled && cancelled(ctx)) || closed(cancelCh) || (exists q: ref :: q != nil && curat(q) == lastcs() && resolved(q) && result0 == resval(q) && result1 == reserr(q))
+//
+//@ closure (*PromiseContainer).AwaitWithCancelCh$1
+//@   ghost exit: curat(prom) := now()
+//@   assert exit: prom == p.promise && waitCh != nil && waitCh == p.bcast.ch
